@@ -107,7 +107,7 @@ CheckAff(e) ==
                 /\ V("C16", e, SetEq(ReprCons(o, s.repr), Cons(s.f), s.f.n), "convert_to(" \o s.repr \o ") does not denote the same half-spaces", sg \o "/" \o s.repr)
            [] s.op = "compose" ->
                 /\ V("C16", e, ~o.ex \/ SameAff(o, Expected(s)), "compose(f, g) coefficients differ from (F G, F c_g + c_f)", sg)
-                /\ V("C16", e, ~o.ex \/ s.g.n # 2 \/ \A x \in M!AffGrid : Scale(s.f.q * s.g.q, Apply(o, x, 1)) = Scale(o.q, Apply(s.f, Apply(s.g, x, 1), 1)),
+                /\ V("C16", e, ~o.ex \/ \A x \in M!AffGridD(s.g.n) : Scale(s.f.q * s.g.q, Apply(o, x, 1)) = Scale(o.q, Apply(s.f, Apply(s.g, x, 1), 1)),
                      "compose(f, g)(x) differs from f(g(x)) at a grid point", sg \o "/grid")
            [] OTHER -> V("C16", e, ~o.ex \/ SameAff(o, Expected(s)), sg \o " does not compute what its documentation states", sg)
 
